@@ -233,9 +233,11 @@ def tlc_pointwise(ctx, lines, tag, shards, timeout=1500):
 
 
 def obs_key(o, clause):
-    if o["k"] == "sup":
-        return f"sup:{clause}"
+    if o["k"] == "sup":      # helper, clause, operand type (so that a known finding about one instantiation cannot hide another)
+        return f"sup:{clause}:{'i' if o.get('sg') else 'u'}{o['w']}"
     if o["k"] == "t2r":
+        return f"{clause}:arch{o['a']}:type{o['t']}"
+    if o["k"] == "arch":
         return f"{clause}:arch{o['a']}"
     return clause
 
